@@ -372,6 +372,12 @@ func (e *InErr) Error() string { return e.Msg }
 
 func inErr(f string, a ...interface{}) error { return &InErr{Msg: fmt.Sprintf(f, a...)} }
 
+// Lenient switches CoerceIn to also accept the value-preserving conversions an
+// implementation may (but need not) perform: a decimal string for Int64 /
+// Float64, numeric epoch seconds for Time. The checks evaluate both modes: what
+// a resolver receives must equal one of the two results.
+var Lenient = false
+
 // Coerced wraps an already coerced (canonical) value substituted for a variable.
 type Coerced struct{ V interface{} }
 
@@ -489,6 +495,13 @@ func CoerceIn(s *model.Schema, t *model.TypeRef, v interface{}) (interface{}, er
 		if name == "Int64" {
 			lo, hi = math.MinInt64, math.MaxInt64
 		}
+		if str, isStr := v.(string); isStr && Lenient && name == "Int64" {
+			i, err := strconv.ParseInt(str, 10, 64)
+			if err != nil {
+				return nil, inErr("%q is not an Int64", str)
+			}
+			return Num(strconv.FormatInt(i, 10)), nil
+		}
 		if !isNumericKind(v) {
 			return nil, inErr("%T is not an %s", v, name)
 		}
@@ -498,6 +511,13 @@ func CoerceIn(s *model.Schema, t *model.TypeRef, v interface{}) (interface{}, er
 		}
 		return n, nil
 	case "Float", "Float64":
+		if str, isStr := v.(string); isStr && Lenient && name == "Float64" {
+			f, err := strconv.ParseFloat(str, 64)
+			if err != nil || math.IsNaN(f) || math.IsInf(f, 0) {
+				return nil, inErr("%q is not a Float64", str)
+			}
+			return floatNum(f), nil
+		}
 		bf, good := bigOf(v)
 		if !good {
 			return nil, inErr("%T is not a %s", v, name)
@@ -541,6 +561,19 @@ func CoerceIn(s *model.Schema, t *model.TypeRef, v interface{}) (interface{}, er
 			return Opaque("time.Time:" + p.Format(time.RFC3339Nano)), nil
 		case time.Time:
 			return Opaque("time.Time:" + tv.Format(time.RFC3339Nano)), nil
+		}
+		if Lenient && isNumericKind(v) {
+			bf, _ := bigOf(v)
+			if bf == nil {
+				return nil, inErr("not a number of seconds")
+			}
+			f, _ := bf.Float64()
+			if f < -62135596800 || f >= 253402300800 {
+				return nil, inErr("seconds out of range for Time")
+			}
+			secs := math.Floor(f)
+			tt := time.Unix(int64(secs), int64((f-secs)*1e9)).UTC()
+			return Opaque("time.Time:" + tt.Format(time.RFC3339Nano)), nil
 		}
 		return nil, inErr("%T is not a Time", v)
 	}
